@@ -264,6 +264,11 @@ pub fn check<D: Dd>(dd: &D, t: &Table, all: bool, has_value: bool) {
                 if !known.contains(id) {
                     fail("cluster-member", format!("cluster lists unknown node {}", id));
                 }
+                // naming an id inside a subgraph CREATES the node in DOT: a cluster may only list nodes that this very
+                // rendering declares (a node hidden by the configuration must not come back through a cluster)
+                if !p.nodes.contains_key(id) {
+                    fail("cluster-member-hidden", format!("cluster lists node {} which this rendering does not declare (hidden by the configuration): DOT draws it anyway", id));
+                }
             }
         }
     }
